@@ -658,3 +658,36 @@ def goal_show(goal):  # noqa: F811
     if goal[0] == "scanned-past":
         return "value < decoded element"
     return _old_goal_show(goal)
+
+
+@rule("R04.4", props=["C04"], floor=2, title="Elias-Fano scans: stepping one word of the high bits is paired with accumulating BITS positions (pred) / advancing the word cursor (succ, index_of)")
+def r04_4(ctx, rr):
+    F = ctx.F()
+    b = F.one(r"EliasFano<H, L> as traits::indexed_dict::PredUnchecked>::pred_unchecked$")
+    loops = [n for n in walk(b.body) if n.get("k") == "Loop" and n.get("src") == "While"]
+    ok = False
+    found = []
+    for lp in loops:
+        ups = [(x["op"], show(F, x["l"]), show(F, x["r"])) for x in walk(lp["body"]) if x.get("k") == "AssignOp"]
+        asg = [(show(F, x["l"]), show(F, x["r"])) for x in walk(lp["body"]) if x.get("k") == "Assign" and x["l"].get("k") == "Path"]
+        steps_back = [u for u in ups if u[0] == "-=" and u[2] == "1"]
+        if steps_back:
+            found.append((ups, asg))
+            acc = [u for u in ups if u[0] == "+=" and "BITS" in u[2]]
+            # no plain (non-accumulating) assignment to the accumulated variable inside the loop
+            plain = [a for a in asg if acc and a[0] == acc[0][1]]
+            if len(steps_back) == 1 and len(acc) == 1 and not plain:
+                ok = True
+    rr.instances += 1
+    rr.check(ok, "EliasFano::pred_unchecked:backward-scan-accumulates", "in the backward scan of pred_unchecked every step to the previous word (`word_idx -= 1`) must add BITS to the number of skipped positions (`zeros += BITS`): an assignment instead of an accumulation is right for one empty word only; found %s" % found[:2], b.span)
+    # forward scans: the word cursor advances by one per refill of the window
+    for path in (r"EliasFano<H, L> as traits::indexed_dict::SuccUnchecked>::succ_unchecked$", r"EliasFano<H, L> as traits::indexed_dict::IndexedDict>::index_of$"):
+        fb = F.one(path)
+        okf = False
+        for lp in [n for n in walk(fb.body) if n.get("k") == "Loop" and n.get("src") == "While"]:
+            ups = [(x["op"], show(F, x["l"]), show(F, x["r"])) for x in walk(lp["body"]) if x.get("k") == "AssignOp"]
+            refills = [x for x in walk(lp["body"]) if x.get("k") == "Assign" and show(F, x["l"]) == "window"]
+            if ("+=", "word_idx", "1") in ups and len(refills) == 1 and "word_idx" in show(F, refills[0]["r"]):
+                okf = True
+        rr.instances += 1
+        rr.check(okf, "%s:forward-scan-advances" % short_fn(fb.key), "%s: while the window is empty the scan must move to the next word (`word_idx += 1`) and reload the window from it" % fb.key, fb.span)
